@@ -2,7 +2,7 @@
 # usage: scan.sh <crate-dir> <out.json> <crate-name> [cargo feature args...]
 # Runs the elfscan driver over the lib target of <crate-dir> with a fresh target dir.
 set -euo pipefail
-dir="$1"; out="$2"; crate="$3"; shift 3
+dir="$1"; out="$(realpath -m "$2")"; crate="$3"; shift 3
 here="$(cd "$(dirname "$0")" && pwd)"
 drv="$here/elfscan/target/debug/elfscan"
 [ -x "$drv" ] || { echo "elfscan driver not built (run setup)"; exit 2; }
